@@ -18,7 +18,11 @@ structure Field where
 
 /-- datasheet meaning of "set field f to code c": only the field's bits change -/
 def Field.put (f : Field) (code : Nat) (r : Regs) : Regs :=
-  r.set f.addr ((r f.addr &&& ~~~f.mask) ||| ((BitVec.ofNat 8 code <<< f.shift) &&& f.mask))
+  fun x => if x = f.addr then (r x &&& ~~~f.mask) ||| ((BitVec.ofNat 8 code <<< f.shift) &&& f.mask) else r x
+
+theorem Field.put_eq_set (f : Field) (code : Nat) (r : Regs) :
+    f.put code r = r.set f.addr ((r f.addr &&& ~~~f.mask) ||| ((BitVec.ofNat 8 code <<< f.shift) &&& f.mask)) := by
+  funext x; unfold Field.put Regs.set; split <;> simp_all
 
 def Field.get (f : Field) (r : Regs) : Nat := ((r f.addr &&& f.mask) >>> f.shift).toNat
 
